@@ -283,6 +283,10 @@ func (ex *Exec) applyContract(st *State, in ssa.Instruction, site string, con *C
 		g := ex.evalClause(env, cl, con)
 		ex.obligeNamed(st, in, "pre", short+"."+cl.Label+"@"+site, g, cl.Src, ex.propsOf(cl, con))
 	}
+	for _, cl := range con.clauses("assume") {
+		st.assume(ex.evalClause(env, cl, con))
+		ex.noteAssumption("assumed, not checked at call sites: " + short + " " + cl.Label + ": " + cl.Src)
+	}
 	var out []*State
 	// exceptional exit of the callee
 	pcl := con.clauses("panics_only_if")
@@ -547,6 +551,23 @@ func (ex *Exec) assignLocs(env *SpecEnv, con *Contract) (locs []loc) {
 				mt := x.Ty.Underlying().(*types.Map)
 				vh, ph := c.mapHeaps(c.sortFor(mt.Key()), c.sortFor(mt.Elem()))
 				locs = append(locs, loc{heap: vh, ref: x.T}, loc{heap: ph, ref: x.T})
+				break
+			}
+			if n.Name == "anyfield" && len(n.Args) == 2 {
+				ty := ex.resolveType(n.Args[0].String(), env.pkg)
+				nm, st := structOf(ty)
+				found := false
+				if st != nil && nm != nil {
+					for i := 0; i < st.NumFields(); i++ {
+						if st.Field(i).Name() == n.Args[1].String() {
+							locs = append(locs, loc{heap: c.heapDecl(fieldHeap(typeKey(nm), st.Field(i).Name(), i), arraySort(sortRef, c.sortFor(st.Field(i).Type())))})
+							found = true
+						}
+					}
+				}
+				if !found {
+					specFail("assigns %s: no such field", it.Src)
+				}
 				break
 			}
 			specFail("assigns %s: unsupported", it.Src)
